@@ -436,6 +436,8 @@ fn edit_cases(vectors: Option<&str>, corpus: &str, rng: &mut Rng, thorough: bool
     ("{}{}{}\n", json!({"kind": "statement_block"})),
     ("let t = `${a}${b}${c}`;\n", json!({"kind": "template_substitution"})),
     ("a;b;;c;\n", json!({"kind": "expression_statement"})),
+    // a file that starts with a byte order mark: three bytes of the file like any others (offsets count them, -U keeps them)
+    ("\u{feff}foo(1)\nlet s = \"é\";\n\"éé\";foo(2)\n", json!({"pattern": "foo($A)"})),
   ];
   for (i, (src, rule)) in fixed.iter().enumerate() {
     for (j, fix) in ["bar($A)", "$A", ""].iter().enumerate() {
